@@ -1,3 +1,4 @@
+import CfbVerif.Spec.Consts
 import CfbVerif.Names.Paths
 /-!
 # C09 — names are validated, case-insensitive, and paths are normalised consistently
